@@ -85,10 +85,25 @@ func (t *vSkel) print(spell int, parent int, isLeft bool) string {
 	}
 	switch t.op {
 	case 0:
-		if spell == vSpellRedundantParens {
-			return "(" + vAtomNames[t.atom] + ")"
+		name := ""
+		switch {
+		case t.atom == -1:
+			name = "true"
+			if spell == vSpellUpper {
+				name = "TRUE"
+			}
+		case t.atom == -2:
+			name = "false"
+			if spell == vSpellUpper {
+				name = "False"
+			}
+		default:
+			name = vAtomNames[t.atom]
 		}
-		return vAtomNames[t.atom]
+		if spell == vSpellRedundantParens {
+			return "(" + name + ")"
+		}
+		return name
 	case 3:
 		s := not + lp + t.l.print(spell, 0, false) + rp
 		if parent != 0 && isLeft || spell == vSpellFullParens && parent != 0 {
@@ -124,6 +139,9 @@ func (t *vSkel) print(spell int, parent int, isLeft bool) string {
 func (t *vSkel) eval(v []bool) bool {
 	switch t.op {
 	case 0:
+		if t.atom < 0 {
+			return t.atom == -1
+		}
 		return v[t.atom]
 	case 1:
 		return verifrt.And(t.l.eval(v), t.r.eval(v))
@@ -138,72 +156,95 @@ type vProgram struct {
 	tree *vSkel
 }
 
-func verifC12Family() []vProgram {
-	maxConn := 3
-	if verifrt.Tier() == 1 {
-		maxConn = 4
+// constVariants returns t plus, for small trees, the variants in which one
+// leaf is replaced by the literal true or false.
+func constVariants(t *vSkel, conn int) []*vSkel {
+	out := []*vSkel{t}
+	if conn == 0 || conn > 2 {
+		return out
 	}
+	var leaves int
+	countLeaves(t, &leaves)
+	for k := 0; k < leaves; k++ {
+		for _, c := range []int{-1, -2} {
+			idx := 0
+			out = append(out, replaceLeaf(t, k, c, &idx))
+		}
+	}
+	return out
+}
+
+func countLeaves(t *vSkel, n *int) {
+	if t.op == 0 {
+		*n++
+		return
+	}
+	countLeaves(t.l, n)
+	if t.r != nil {
+		countLeaves(t.r, n)
+	}
+}
+
+func replaceLeaf(t *vSkel, k, c int, idx *int) *vSkel {
+	if t.op == 0 {
+		r := &vSkel{op: 0, atom: t.atom}
+		if *idx == k {
+			r.atom = c
+		}
+		*idx++
+		return r
+	}
+	r := &vSkel{op: t.op}
+	r.l = replaceLeaf(t.l, k, c, idx)
+	if t.r != nil {
+		r.r = replaceLeaf(t.r, k, c, idx)
+	}
+	return r
+}
+
+func verifC12FamilyN(maxConn int) []vProgram {
 	seen := map[string]bool{}
 	var out []vProgram
 	for n := 0; n <= maxConn; n++ {
 		for _, shape := range verifTrees(n, true) {
 			k := 0
-			t := shape.number(&k)
+			numbered := shape.number(&k)
 			if k > len(vAtomNames) {
 				continue
 			}
-			for spell := vSpellPlain; spell <= vSpellRedundantParens; spell++ {
-				if spell != vSpellPlain && spell != vSpellFullParens && n > 3 {
-					continue
-				}
-				s := t.print(spell, 0, false)
-				if !seen[s] {
-					seen[s] = true
-					out = append(out, vProgram{s, t})
+			for _, t := range constVariants(numbered, n) {
+				for spell := vSpellPlain; spell <= vSpellRedundantParens; spell++ {
+					if spell != vSpellPlain && spell != vSpellFullParens && n > 3 {
+						continue
+					}
+					s := t.print(spell, 0, false)
+					if !seen[s] {
+						seen[s] = true
+						out = append(out, vProgram{s, t})
+					}
 				}
 			}
 		}
 	}
 	return out
+}
+
+func verifC12Family() []vProgram {
+	if verifrt.Tier() == 1 {
+		return verifC12FamilyN(4)
+	}
+	return verifC12FamilyN(3)
 }
 
 func init() {
 	verifQueryFamilies = append(verifQueryFamilies, func() []string {
 		var qs []string
-		for _, tier := range []int{0, 1} {
-			_ = tier
-		}
-		for _, p := range verifC12FamilyAll() {
+		// the thorough family is a superset of the quick one
+		for _, p := range verifC12FamilyN(4) {
 			qs = append(qs, p.text)
 		}
 		return qs
 	})
-}
-
-// the trace generator needs the thorough family (a superset of the quick one)
-func verifC12FamilyAll() []vProgram {
-	seen := map[string]bool{}
-	var out []vProgram
-	for n := 0; n <= 4; n++ {
-		for _, shape := range verifTrees(n, true) {
-			k := 0
-			t := shape.number(&k)
-			if k > len(vAtomNames) {
-				continue
-			}
-			for spell := vSpellPlain; spell <= vSpellRedundantParens; spell++ {
-				if spell != vSpellPlain && spell != vSpellFullParens && n > 3 {
-					continue
-				}
-				s := t.print(spell, 0, false)
-				if !seen[s] {
-					seen[s] = true
-					out = append(out, vProgram{s, t})
-				}
-			}
-		}
-	}
-	return out
 }
 
 // ---- stub symbols: bool symbols with a symbolic truth assignment ----
@@ -268,7 +309,9 @@ func verifGreedyDiffers(text string, tree *vSkel) bool {
 
 func countAtoms(t *vSkel, n *int) {
 	if t.op == 0 {
-		*n++
+		if t.atom+1 > *n {
+			*n = t.atom + 1
+		}
 		return
 	}
 	countAtoms(t.l, n)
@@ -280,6 +323,9 @@ func countAtoms(t *vSkel, n *int) {
 func (t *vSkel) evalC(v []bool) bool {
 	switch t.op {
 	case 0:
+		if t.atom < 0 {
+			return t.atom == -1
+		}
 		return v[t.atom]
 	case 1:
 		return t.l.evalC(v) && t.r.evalC(v)
@@ -308,6 +354,12 @@ func verifGreedyParse(toks []string, pos *int) *vSkel {
 		*pos++
 		return &vSkel{op: 3, l: verifGreedyParse(toks, pos)}
 	default:
+		switch toks[*pos] {
+		case "true":
+			left = &vSkel{op: 0, atom: -1}
+		case "false":
+			left = &vSkel{op: 0, atom: -2}
+		}
 		for i, n := range vAtomNames {
 			if n == toks[*pos] {
 				left = &vSkel{op: 0, atom: i}
